@@ -41,6 +41,8 @@ struct SinkInner {
     #[allow(dead_code)]
     id: usize,
     log: Mutex<Vec<Rec>>,
+    /// when set, every write is still recorded but reports an I/O error to its caller
+    fail: std::sync::atomic::AtomicBool,
 }
 #[derive(Clone)]
 struct RecSink(Arc<SinkInner>);
@@ -55,7 +57,11 @@ fn set_opctx(th: u64, op: u64) {
 
 impl RecSink {
     fn new(id: usize) -> Self {
-        RecSink(Arc::new(SinkInner { id, log: Mutex::new(Vec::new()) }))
+        RecSink(Arc::new(SinkInner { id, log: Mutex::new(Vec::new()), fail: std::sync::atomic::AtomicBool::new(false) }))
+    }
+    #[allow(dead_code)]
+    fn set_fail(&self, on: bool) {
+        self.0.fail.store(on, Ordering::SeqCst);
     }
     fn push(&self, w: u64, kind: RecKind) {
         let (th, op) = OPCTX.with(|c| c.get());
@@ -76,6 +82,9 @@ impl io::Write for RecWriter {
     // the std defaults, which end up here, so every individual write call is seen.
     fn write(&mut self, buf: &[u8]) -> io::Result<usize> {
         self.sink.push(self.w, RecKind::Write(buf.to_vec()));
+        if self.sink.0.fail.load(Ordering::SeqCst) {
+            return Err(io::Error::new(io::ErrorKind::BrokenPipe, "recording sink set to fail"));
+        }
         Ok(buf.len())
     }
     fn flush(&mut self) -> io::Result<()> {
